@@ -23,7 +23,7 @@ use vcore::{util, Tally};
 const SIZES: [(usize, usize); 4] = [(8, 8), (8, 16), (16, 8), (32, 32)];
 const NAMES: [&str; 3] = ["t", "テクスチャ", "a/b.png"];
 /// TPL images additionally come in sizes that are not whole 8x4 blocks
-const TPL_SIZES: [(usize, usize); 6] = [(8, 8), (8, 16), (16, 8), (32, 32), (5, 3), (13, 9)];
+const TPL_SIZES: [(usize, usize); 9] = [(8, 8), (8, 16), (16, 8), (32, 32), (5, 3), (13, 9), (8, 2), (16, 6), (5, 4)];
 const TPL_PALETTES: [usize; 3] = [256, 16, 1];
 
 struct PoolTex {
@@ -576,7 +576,7 @@ fn explore(ctx: &Ctx) -> Outcome {
     extras.push(("texture_lists", json!({"3ds": w.lists3.len(), "tpl": w.listst.len(), "max_textures": tier.pick(3, 6)})));
     extras.push(("layouts", json!({"ctpk": w.ctpk.len(), "bch": w.bch.len(), "cgfx_forward": w.cgfx.len(), "cgfx_backward(unchecked only, observation)": w.cgfx_backward.len(), "tpl": w.tpl.len()})));
     let mut o = total.into_outcome(
-        "texture pool: every one of the 9 supported 3DS formats x sizes {8x8, 8x16, 16x8, 32x32} x names {t, テクスチャ, a/b.png} (108 textures, pseudo-random payloads) and 18 CI8+RGB5A3 TPL images (incl. sizes that are not whole blocks, palettes of 256/16/1 entries); texture lists: the empty list, every pool texture alone, and for each length up to the bound one list per pool texture with the other positions running through the pool under coprime strides; EVERY list is packed in EVERY layout of the container's family (movable sections in every order, 0/16-byte gaps, entries forward/reversed, shared/duplicated names, BCH with and without the extended header) and read back: count, order, names, dimensions, pixels = reference decoding of the texture's own payload; every list with 4 magic bytes x 5 corruptions + 8 foreign magics must give Err (BCH, CGFX, TPL); EVERY strict prefix of a schedule of files (each list once, each layout once) must not panic and must give Err while a payload is cut. A case is one file; non-trivial = it holds at least one texture",
+        "texture pool: every one of the 9 supported 3DS formats x sizes {8x8, 8x16, 16x8, 32x32} x names {t, テクスチャ, a/b.png} (108 textures, pseudo-random payloads) and 27 CI8+RGB5A3 TPL images (incl. sizes that are not whole blocks, palettes of 256/16/1 entries); texture lists: the empty list, every pool texture alone, and for each length up to the bound one list per pool texture with the other positions running through the pool under coprime strides; EVERY list is packed in EVERY layout of the container's family (movable sections in every order, 0/16-byte gaps, entries forward/reversed, shared/duplicated names, BCH with and without the extended header) and read back: count, order, names, dimensions, pixels = reference decoding of the texture's own payload; every list with 4 magic bytes x 5 corruptions + 8 foreign magics must give Err (BCH, CGFX, TPL); EVERY strict prefix of a schedule of files (each list once, each layout once) must not panic and must give Err while a payload is cut. A case is one file; non-trivial = it holds at least one texture",
         true,
         extras,
     );
